@@ -99,6 +99,9 @@ def check_c10(tier):
     if sorted(x["case"] for x in rj) != ["neg1", "neg2"]:
         raise Infra("negative control failed for Trace_Totality: %s" % rj)
     rep.add("negative_control", corrupted_records_rejected=2)
+    # the dump tools are entry points too (files the generating tools wrote, signed NOW, and damaged variants of them)
+    from cli_checks import cli_total
+    cli_total(rep, "C10", tier)
     rep.assumptions = ["panic / hang / allocation are observations of the real run (recover, watchdog, runtime.MemStats); TLC chooses the inputs and judges the outcome",
                        "cbor.Deterministic's deliberate panics on truncated input count as refusals (C13)", "the caller's MI record-size limit is 16384"]
     return rep.finish()
